@@ -28,6 +28,9 @@ pub(crate) struct VariablesState {
     list_defs_origin: Rc<ListDefinitionsOrigin>,
 }
 
+// Longest chain of variable pointers followed to reach a variable (the engine itself never builds one longer than two)
+const MAX_POINTER_CHAIN: usize = 64;
+
 impl VariablesState {
     pub fn new(
         callstack: Rc<RefCell<CallStack>>,
@@ -122,7 +125,15 @@ impl VariablesState {
             // Assign to an existing variable pointer
             // Then assign to the variable that the pointer is pointing to by name.
             // De-reference variable reference to point to
+            let mut hops = 0;
             loop {
+                hops += 1;
+                if hops > MAX_POINTER_CHAIN {
+                    return Err(StoryError::InvalidStoryState(format!(
+                        "Variable pointers starting at '{}' never reach a variable",
+                        var_ass.variable_name
+                    )));
+                }
                 let existing_pointer = self.get_raw_variable_with_name(&name, context_index);
 
                 match existing_pointer {
@@ -316,19 +327,23 @@ impl VariablesState {
     }
 
     pub fn get_variable_with_name(&self, name: &str, context_index: i32) -> Option<Rc<Value>> {
-        let var_value = self.get_raw_variable_with_name(name, context_index);
-        // Get value from pointer?
-        if let Some(vv) = var_value.clone()
-            && let Some(var_pointer) = Value::get_value::<&VariablePointerValue>(vv.as_ref())
-        {
-            return self.value_at_variable_pointer(var_pointer);
+        let mut var_value = self.get_raw_variable_with_name(name, context_index);
+        // Get value from pointer? Pointers to pointers are flattened when they are created, so a
+        // chain that does not end (a cycle in a hand-edited save) finds no variable
+        let mut hops = 0;
+        while let Some(vv) = var_value.clone() {
+            let Some(var_pointer) = Value::get_value::<&VariablePointerValue>(vv.as_ref()) else {
+                break;
+            };
+            hops += 1;
+            if hops > MAX_POINTER_CHAIN {
+                return None;
+            }
+            var_value =
+                self.get_raw_variable_with_name(&var_pointer.variable_name, var_pointer.context_index);
         }
 
         var_value
-    }
-
-    fn value_at_variable_pointer(&self, pointer: &VariablePointerValue) -> Option<Rc<Value>> {
-        self.get_variable_with_name(&pointer.variable_name, pointer.context_index)
     }
 
     pub fn set_callstack(&mut self, callstack: Rc<RefCell<CallStack>>) {
